@@ -5,6 +5,8 @@ Driver.Sevm — runs the Model.Sevm exploration core on a program (one reply per
       nargs  : number of symbolic 32-byte calldata words a0.. after a 4-byte concrete selector 12345678
       oracle : unknown | sat      (what the solver behind Path.check answers to every query; both are OracleSound)
    -> ends=<kind@pc,…|-> bounded=<n> depthcut=<0|1> fuelout=<0|1>
+  eval <codehex> <nargs> <loop> <depth> <fuel> <oracle> <a0,a1,…> <caller> <origin> <value>     (hex values)
+   -> sat=<kind@pc:datahex,…|->   the end states whose path the inputs satisfy, with their data evaluated
   steps <codehex> <nargs> <loop> <fuel> <oracle>
    -> steps=<n>   iterations of the worklist loop of the whole run without a --depth limit (0: fuel exhausted)
       kind: success revert invalidOpcode invalidJump stackUnderflow … | stuck:<reason> ; a trailing `!` marks the
@@ -98,6 +100,24 @@ def handle (line : String) : String :=
       let e := if ends.isEmpty then "-" else ",".intercalate ends
       s!"ends={e} bounded={res.boundedLoops.length} depthcut={if res.depthCut then 1 else 0} fuelout={if res.outOfFuel then 1 else 0}"
     | _, _, _, _, _ => "bad-op"
+  | ["eval", code, nargs, loop, depth, fuel, orc, argv, caller, origin, value] =>
+    -- the end states whose path the given inputs satisfy, each with its return / revert data evaluated
+    match hexBytes? code, nargs.toNat?, loop.toNat?, depth.toNat?, fuel.toNat?,
+          (argv.splitOn ",").mapM hexVal?, hexVal? caller, hexVal? origin, hexVal? value with
+    | some code, some nargs, some loop, some depth, some fuel, some args, some caller, some origin, some value =>
+      let o : Oracle := fun _ _ => if orc = "sat" then .sat else .unknown
+      let res := run drvSimp o { loop, depth } (mkEnv nargs) code fuel
+      let bvVal (x : String) (_ : Nat) : Nat :=
+        if x = "msg_sender" then caller else if x = "tx_origin" then origin else if x = "msg_value" then value
+        else if x.startsWith "a" then args.getD ((x.drop 1).toNat?.getD 0) 0 else 0
+      let I := Interp.std bvVal (fun _ => false) (fun _ _ _ _ => 0) (fun _ _ _ => 0)
+      let hex2 (n : Nat) : String :=
+        let d (k : Nat) : Char := if k < 10 then Char.ofNat (48 + k) else Char.ofNat (87 + k)
+        String.ofList [d (n / 16 % 16), d (n % 16)]
+      let sat := res.ends.filter fun e => e.st.path.all fun c => c.eval I
+      let names := (sat.map fun e => s!"{outName e}:{String.join (e.data.map fun b => hex2 (b.eval I))}").toArray.qsort (· < ·) |>.toList
+      s!"sat={if names.isEmpty then "-" else ",".intercalate names}"
+    | _, _, _, _, _, _, _, _, _ => "bad-op"
   | ["steps", code, nargs, loop, fuel, orc] =>
     -- the number of iterations of the worklist loop of the whole run (0 when the fuel does not suffice): the least
     -- `--depth` under which nothing is cut, found by doubling and bisection
